@@ -430,6 +430,39 @@ def free_programs(draw):
         opts["virtual_dtor"] = draw(st.booleans())
     return make_program(kind, family, clauses, **opts)
 
+def legal_pair_programs():
+    """Deterministic enumeration (no randomness): every ordered pair of legal clauses from different categories
+    {WITH, SIDE_EFFECT, IN_SEQUENCE(1..3 sequences), every TIMES(...) with a non-zero upper bound, every RT_TIMES(...)}
+    on a void and on a value-returning function (the latter closed by a RETURN placed first or last). Random generation
+    reaches a particular (clause, variant, order) combination only with a probability well below 1 % per program."""
+    cats = {
+        "W": lambda k: with_variants(k)[:1],
+        "S": lambda k: side_variants(k)[:1],
+        "Q": lambda k: seq_clauses(),
+        "T": lambda k: times_clauses(TIMES_POS),
+        "R": lambda k: rt_clauses(),
+    }
+    names = sorted(cats)
+    out = []
+    for kind in ("void_int", "int_int"):
+        if kind not in KINDS:
+            continue
+        term = [] if KINDS[kind].ret == "void" else [return_variants(kind, ("ok",))[0]]
+        for a in names:
+            for b in names:
+                if a >= b or {a, b} == {"T", "R"}:
+                    continue
+                for ca in cats[a](kind):
+                    for cb in cats[b](kind):
+                        for first, second in ((ca, cb), (cb, ca)):
+                            for pos in ((0, 1) if term else (0,)):
+                                items = [first, second]
+                                items = (term + items) if pos == 0 else (items + term)
+                                pr = make_program(kind, "REQUIRE_CALL", items)
+                                if not evaluate(pr):
+                                    out.append(pr)
+    return out
+
 def strategy(group):
     if group == "legal":
         return legal_programs()
